@@ -2,6 +2,7 @@
 mod absmap;
 mod attrs;
 mod builders;
+mod catchrec;
 mod convert;
 mod corners;
 mod decode;
@@ -56,6 +57,7 @@ fn main() {
         "taiko-record" => taiko::record_main(rest),
         "taikocolour-replay" => taiko::colour_replay_main(rest),
         "stack-replay" => osustack::replay_main(rest),
+        "catch-record" => catchrec::record_main(rest),
         "mods-replay" => modsrep::main(rest),
         "convert-replay" => convert::replay_main(rest),
         "convert-record" => convert::record_main(rest),
